@@ -1172,6 +1172,73 @@ def outcome_inner(r):
     return ",".join(sorted(err_codes(r.retval)))
 
 
+# ---- bounded and reverse splits of a byte slice: the pieces, eagerly ----------------------------------------------------------
+def m_slice_splitn(kind):
+    """`s.splitn(n, pred)`, `s.rsplitn(n, pred)`, `s.rsplit(pred)`, `s.split_inclusive(pred)`: the predicate is folded on every
+    byte (it must be decided for each), the pieces are handed out as an item sequence in the order the iterator yields them"""
+    def model(eng, st, fr, t, name, rname, args):
+        from . import itermodels as IT
+        b = _bytes_of(eng, st, args[0])
+        if b is None:
+            return NotImplemented
+        data = list(b)
+        off = _off(eng, st, args[0])
+        if kind in ("splitn", "rsplitn"):
+            n = eng.resolve(st, args[1])
+            if not isinstance(n, K):
+                return NotImplemented
+            n, clo = int(n.v), args[2]
+        else:
+            n, clo = None, args[1]
+        hits = []
+        for i, x in enumerate(data):
+            res = eng.call_closure(st, fr, clo, [RefV(Cell(K(x), "item"))], None)
+            if len(res) != 1 or res[0][0] is not st:
+                return NotImplemented
+            v = eng.resolve(st, res[0][1])
+            if not isinstance(v, K):
+                return NotImplemented
+            if v.v:
+                hits.append(i)
+
+        def piece(lo, hi):
+            return _mkslice(data[lo:hi], None if off is None else off + lo)
+        out = []
+        if kind == "split_inclusive":
+            lo = 0
+            for h in hits:
+                out.append(piece(lo, h + 1))
+                lo = h + 1
+            if lo < len(data):
+                out.append(piece(lo, len(data)))
+        elif kind in ("rsplitn", "rsplit"):
+            hi = len(data)
+            use = list(reversed(hits))
+            if n is not None:
+                if n == 0:
+                    return IT.mk([])
+                use = use[:n - 1]
+            for h in use:
+                out.append(piece(h + 1, hi))
+                hi = h
+            out.append(piece(0, hi))
+        else:
+            lo = 0
+            use = hits if n is None else hits[:max(n - 1, 0)]
+            if n == 0:
+                return IT.mk([])
+            for h in use:
+                out.append(piece(lo, h))
+                lo = h + 1
+            out.append(piece(lo, len(data)))
+        return IT.mk(out)
+    return model
+
+
+FOLD_MODELS.update({"core::slice::splitn": m_slice_splitn("splitn"), "core::slice::rsplitn": m_slice_splitn("rsplitn"),
+                    "core::slice::rsplit": m_slice_splitn("rsplit"), "core::slice::split_inclusive": m_slice_splitn("split_inclusive")})
+
+
 # ---- predicates of f32 / f64 on concrete floats ---------------------------------------------------------------------------
 import math as _math
 
